@@ -31,7 +31,7 @@ META = {
         text='Theorems Props.C04_curly and C04_jsr (Coq, no axioms): under both routers the parameter map of an invoked route is '
              'exactly the map of the structural bindings of root + route template on the path (segment minus verb/suffix; tail = '
              'remaining text); extraction cannot panic on an admitted path. RouterJSR311 under the boolean premises '
-             'jsr_tokens_agree / jsr_names_agree (evaluated on every generated case).',
+             'jsr_tokens_agree / jsr_names_agree (evaluated on every generated case). Defect F9 (capture group inside a variable expression shifts later bindings under RouterJSR311) found and fixed; such expressions are in the pool and their groups are modelled in the ranking keys.',
         design_ref='DESIGN.md section 6, C04', note=NOTE_ROUTING, technique=TECH),
     'C09': dict(
         text='Theorems Props.C09, C09_granted, C09_once (Coq, no axioms): for every oracle, configuration, set of routable '
@@ -89,7 +89,7 @@ META = {
              'path with a non-slash byte, and under RouterJSR311 for tables without tail wildcard whose regex variables do not '
              'match the empty string (table_plain) and non-empty paths not ending in a slash: routing p and p + "/" gives the '
              'same outcome (route function, parameter values, error status, Allow list). Paired dispatches on the implementation '
-             'are compared with each other and with the model.',
+             'are compared with each other and with the model. C14_servehttp / C14_servehttp_jsr: the same through Container.ServeHTTP for the container state reached by any registration history, whenever the mux hands both p and p/ to dispatch; the check sends the pair through ServeHTTP too and evaluates that premise with the Registry model.',
         design_ref='DESIGN.md section 6, C14', note=NOTE_ROUTING, technique=TECH),
     'C08': dict(
         text='Theorem Props.C08 (Coq, no axioms): for every ToLower oracle, CORS configuration, container method table, '
@@ -125,7 +125,7 @@ META.update({
              'Accept-Encoding mentions, on a writer without Content-Encoding, with encoding enabled (Dispatch: route over container). '
              'The full statement is refuted in Coq for ServeHTTP (C07_refuted_servehttp_route_off: known finding K-C07-1, replayed '
              'on the real code). PARTIAL: the codec contract is assumed; bodies are decoded with the real compress packages in the '
-             'differential run. Handle / HandleWithFilter (plain handlers reached through ServeHTTP) are in the model and the domain.',
+             'differential run. Handle / HandleWithFilter (plain handlers reached through ServeHTTP) are in the model and the domain. The decoded body must equal, byte for byte, what the scripts of the configuration wrote (c07_body_is_exactly_what_was_written); nested containers (HandleWithFilter of another container), statuses 204/304 and plain handlers are in the domain.',
         design_ref='DESIGN.md section 6, C07', note=NOTE_DISP, technique=TECH),
     'C10': dict(
         text='Theorems Props.C10_no_escape, C10_once, C10_propagates, C10_ledger (Coq, no axioms): with recovery on no panic escapes '
@@ -133,7 +133,7 @@ META.update({
              'when nothing was written; with recovery off the panic value reaches the caller; after every request the compressor '
              'ledger is balanced and the stream closed, so any history of panicking and normal requests leaves the pool intact. '
              'PARTIAL: Go\'s defer/recover is modelled; follow-up requests, the instrumented provider ledger and decoded bodies are '
-             'compared with the model on generated histories.',
+             'compared with the model on generated histories. The recover handler must be called exactly as often as the model says (also after output was written), and the requests after a panic are compared with a fresh container.',
         design_ref='DESIGN.md section 6, C10', note=NOTE_DISP, technique=TECH),
     'C19': dict(
         text='Theorems Props.C19_pool_invariant and C19_events (Coq, no axioms): the model of serving takes configuration, request '
